@@ -9,6 +9,9 @@ package main
 // every marshalled byte string, every decode→encode result — must have exactly one variant.
 // A variation is attributed by a narrow classifier next to it; only the classes listed in
 // known_findings.json are tolerated.
+// Since the batch round (c14_batch.go, c14_batch_gen.go): kinds `authz-unspecified` (messages that print an evaluator
+// node) and `batch` (batch.Authorize: binding order of equally long variables, substituted sets, unbound / unused
+// variables), the latter observed 3 N times.
 // On top: the eval-site oracles (record literal, `in` over a set, containsAll/Any, key sorting): the Go-side
 // outcome — computed independently, entry by entry / member by member — is compared with the Lean model's
 // order-parameterised functions run over ALL orders (ops c14.*: one outcome each since the repairs), and the
@@ -98,6 +101,9 @@ func c14Observe(cases []*c14Case, seed int64, reps, proc int) c14Variants {
 		n := reps
 		if strings.Contains(c.Kind, "schema") && n > 8 { // the heaviest documents: half the repetitions
 			n = n / 2
+		}
+		if c.Kind == "batch" { // two entries of a small Go map swap in about one range out of eight: three times the repetitions
+			n = n * 3
 		}
 		for rep := 0; rep < n; rep++ {
 			out.add(c.Key, c.Run(rep, c14ShuffleRng(seed, c.Key, rep, proc)))
@@ -334,7 +340,7 @@ func c14ClassifyDecode(name, base string, all map[string][]string) []c14Class {
 // ---- the check ----
 
 func runC14(c *vh.Ctx) {
-	c.Res.Rule = "every case (authorization over >= 8 policies / >= 8 entities with record literals holding several erroring entries, `in` over deep hierarchies and over sets with non-entity members, containsAll/Any over large colliding sets; encoders of policy, policy set, entity, entity map, value, schema; decode→encode of fixed policy/policy-set/entity/value/schema bytes, on odd repetitions into a REUSED destination that already holds other content; entity maps and every single entity over look-alike UID groups whose Type+ID / Type+'::'+ID concatenations coincide) observed N times in-process over shuffled insertion orders and iterator orders with repetitions, and again in 3 fresh processes; every observation (decision, reason set, error set WITH messages, all bytes) must have one variant; variations are attributed by classifiers. Plus eval-site oracles against the Lean order-parameterised model run over all orders. distinct = distinct cases; non-trivial = >= 1 policy / >= 2 container entries / any byte input"
+	c.Res.Rule = "every case (authorization over >= 8 policies / >= 8 entities with record literals holding several erroring entries, `in` over deep hierarchies and over sets with non-entity members, containsAll/Any over large colliding sets; encoders of policy, policy set, entity, entity map, value, schema; decode→encode of fixed policy/policy-set/entity/value/schema bytes, on odd repetitions into a REUSED destination that already holds other content; entity maps and every single entity over look-alike UID groups whose Type+ID / Type+'::'+ID concatenations coincide; policy TEXT applying getTag/hasTag/attribute access to an UNSPECIFIED principal/resource with non-literal tag expressions, parsed and compiled anew on every repetition; batch.Authorize over request templates with >= 2 variables of equally many values and conditions whose operands both fail, `is … in` with failing right-hand sides, contexts holding sets with hash-colliding members around a variable, several unbound / unused variables — every callback's Request incl. the marshalled context, Values, Decision, reasons and error messages, and the callback order, 3 x N times) observed N times in-process over shuffled insertion orders and iterator orders with repetitions, and again in 3 fresh processes; every observation (decision, reason set, error set WITH messages, all bytes) must have one variant; variations are attributed by classifiers. Plus eval-site oracles against the Lean order-parameterised model run over all orders (record literal, `in` message, containsAll/Any, sorting encoders, Set marshal order, batch binding order read off the callback nesting, the variable named by batch's unbound/unused error). distinct = distinct cases; non-trivial = >= 1 policy / >= 2 container entries / any byte input"
 	N := c.N(16, 128)
 	t0 := time.Now()
 	cases := c14Cases(c.Seed, c.Tier)
@@ -446,7 +452,8 @@ func runC14(c *vh.Ctx) {
 	}
 	c.Res.Notes = append(c.Res.Notes, fmt.Sprintf("cases=%d repetitions in-process=%d fresh processes=%d observations with more than one variant=%d", len(cases), N, procs, unstable))
 	// generator self-test: the favoured shapes must actually occur
-	for _, want := range []string{"gen:reclit-multi-error", "gen:in-set-nonentity", "gen:in-hierarchy", "gen:contains-big", "gen:json-record>=3", "gen:json-annotations>=3", "gen:schema-coerced-set"} {
+	for _, want := range []string{"gen:reclit-multi-error", "gen:in-set-nonentity", "gen:in-hierarchy", "gen:contains-big", "gen:json-record>=3", "gen:json-annotations>=3", "gen:schema-coerced-set",
+		"gen:unspecified-gettag-nonliteral", "gen:batch-tie-double-error", "gen:batch-is-in-failing-rhs", "gen:batch-set-collision-variable", "gen:batch-unspecified", "gen:batch-several-unbound", "gen:batch-several-unused"} {
 		if c.Res.Distribution[want] < 10 {
 			c.Report(vh.Finding{Class: "generator-collapsed", What: "the generator produced fewer than 10 cases of " + want, Check: "oracle", Op: "gen", NoInput: true})
 		}
@@ -880,6 +887,9 @@ func c14EvalSites(c *vh.Ctx) {
 		}
 		c.Dist("setorder")
 	}
+
+	// (6), (7) batch.Authorize: binding order of the variables, the name in the unbound / unused error (c14_batch.go)
+	c14BatchSites(c, b, r)
 
 	// (5) authorization: the model (policies in the listed order) against the implementation's canonical result
 	c14AuthzCorrespondence(c, b, c.N(150, 1500))
